@@ -132,6 +132,22 @@ class Item:
         return Node("add", (self, o))
 
 
+PERMISSIVE = ("__await__", "__aiter__", "__anext__", "aclose", "send", "throw", "cr_await")
+
+
+def _not_really(*a, **k):
+    raise TypeError("looked up through __getattr__: not really there")
+
+
+class PInt(int):
+    """An int (a key, a count) that answers hasattr() for everything, see Node.__getattr__."""
+
+    def __getattr__(self, name):
+        if name in PERMISSIVE:
+            return _not_really
+        raise AttributeError(name)
+
+
 class Node:
     """Free constructor: the result of a user function / of ``+``."""
 
@@ -142,6 +158,13 @@ class Node:
 
     def __repr__(self):
         return f"{self.f}{self.a}"
+
+    def __getattr__(self, name):
+        # a result object that answers hasattr() for everything (a proxy / record with a permissive __getattr__): what
+        # `await`, `async for` and the like accept is decided by the TYPE, so this is no awaitable and no iterator
+        if name in PERMISSIVE:
+            return _not_really
+        raise AttributeError(name)
 
     def __add__(self, o):
         return Node("add", (self, o))
@@ -496,9 +519,9 @@ def _semantics(rec, name):
     if name == "pred":
         return lambda x: x.k == 0     # deliberately not the item's own truth value (that is what predicate None means)
     if name == "key":
-        return lambda x: x.k
+        return lambda x: PInt(x.k)
     if name == "key2":
-        return lambda x: x.k // 2
+        return lambda x: PInt(x.k // 2)
     return lambda *a: Node(name, a)
 
 
